@@ -238,6 +238,16 @@ def run_families(tier, timeout_ms, fams, props=('C03',)):
     items = []
     if 'F2' in fams: items += [dict(name=n, prog=p.hex(), vm='mbuff', min_mbuff=32, min_mem=8) for n, p in fam_F2()]
     if 'F3' in fams: items += [dict(name=n, prog=p.hex(), vm='mbuff', min_mbuff=32, min_mem=8) for n, p in fam_F3(tier)]
+    if 'F1w' in fams:
+        # whole programs around one instruction (operands loaded from the metadata buffer, effect folded into r0 / memory): the same programs C04 uses
+        import clifcheck
+        sel = {(0, 1), (3, 4), (2, 2), (1, 10), (10, 4)} if tier == 'quick' else {(0, 1), (3, 4), (4, 3), (7, 6), (6, 7), (2, 2), (9, 5), (1, 10), (10, 4), (0, 0), (3, 0), (0, 3), (5, 0)}
+        for it in clifcheck.f1_items(tier):
+            inst = it['inst']; k_, i_ = spec.classify(inst[0])
+            if k_ not in ('alu', 'endian', 'lddw', 'jcond', 'ja'): continue      # data-addressed accesses can alias the eBPF stack, which x86sym keeps apart from data memory: memory instructions stay with the per-instruction simulation
+            if k_ == 'jcond' and not i_['x'] and i_['w'] == 64 and i_['op'] in ('jeq', 'jne', 'jgt', 'jge', 'jlt', 'jle') and inst[4] < 0: continue   # known finding, reported by the per-instruction check
+            if (inst[1], inst[2]) in sel or (inst[2] == 0 and inst[1] in (0, 3)):
+                items.append(dict(name='w:' + it['name'], prog=it['prog'], vm='mbuff', min_mbuff=it['min_mbuff'], min_mem=max(it['min_mem'], 1), role='jit-whole-instruction'))
     return run_items(items, props, timeout_ms)
 
 
